@@ -288,7 +288,11 @@ func (a *az) call(c *ast.CallExpr, _ bool) {
 		_, ptrRecv := sig.Recv().Type().(*types.Pointer)
 		bt := a.p.info.Types[selx.X].Type
 		_, baseIsPtr := bt.Underlying().(*types.Pointer)
-		if loc, ok := a.fieldOf(selx.X); ok && ptrRecv && !baseIsPtr {
+		throughPtr := false // promoted through an embedded pointer: the receiver is that pointer's target
+		if len(sel.Index()) > 1 && sel.Indirect() {
+			throughPtr = true
+		}
+		if loc, ok := a.fieldOf(selx.X); ok && ptrRecv && !baseIsPtr && !throughPtr {
 			// method with pointer receiver on a struct-valued field of ours: may mutate it
 			a.record(loc, "W", selx.X, selx.X.Pos())
 			a.expr(selx.X, mAddr)
